@@ -439,6 +439,10 @@ func genPktzCase(t *rapid.T) *PktzCase {
 			op.N = genU32(t, "skip")
 		case "padding":
 			op.N = uint32(rapid.IntRange(0, 5).Draw(t, "npad"))
+			if rapid.IntRange(0, 199).Draw(t, "padburst") == 113 {
+				// a burst as long as the sequence space or longer: still exactly n packets
+				op.N = uint32(rapid.SampledFrom([]int{65535, 65536, 65537}).Draw(t, "padburstn"))
+			}
 		default:
 			maxLen := 3000
 			if c.Payloader == "opus" {
@@ -479,7 +483,7 @@ func genPktzCase(t *rapid.T) *PktzCase {
 	return c
 }
 
-const ruleC06 = "rapid draws a packetizer configuration (MTU 64-65535 biased to 64,65,100,267,1200,1500; PT; SSRC; fixed sequencer with start biased to 65530-65535/0, random sequencer, or a Sequencer implemented by the harness (every number it hands out must appear on a packet); abs-send-time off or id 1-255 (one-byte form up to 14, two-byte form above; one operation in twelve calls EnableAbsSendTime again with another id or 0) with an injected clock (instants uniform in 1970-2036 or a small step after the previous call's, in the default or a fixed-offset zone; one case in eight injects no clock and brackets the value between the instants read right before and after the call); payloader in {G711,G722,Opus,VP8+-pid,VP9 flexible/non-flexible,H264+-STAP-A,H265+-DONL,AV1, scripted stub}) and 1-10 operations Packetize(non-empty payload, samples)/Packetize(nil or empty payload: no packets, no trace)/SkipSamples/GeneratePadding(0-5); one op in six is 'steered': its sample count is computed at run time from the learned first timestamp so that the next timestamp is exactly 0xFFFFFFFF, 0 or 1. Oracle: spy on the payloader (fragments unchanged and in order), sequence/timestamp model (learned first values), fixed fields, marker, abs-send-time = exact 6.18 value of the injected instant, MarshalSize<=MTU, marshal/parse equality, padding packets valid padding-only RTP; every packet returned earlier still serialises to the same bytes after all later calls. Non-trivial = >=2 productive Packetize calls, one with >=2 packets, with a Skip/Padding before one of them; distinct = FNV-64 of the JSON case"
+const ruleC06 = "rapid draws a packetizer configuration (MTU 64-65535 biased to 64,65,100,267,1200,1500; PT; SSRC; fixed sequencer with start biased to 65530-65535/0, random sequencer, or a Sequencer implemented by the harness (every number it hands out must appear on a packet); abs-send-time off or id 1-255 (one-byte form up to 14, two-byte form above; one operation in twelve calls EnableAbsSendTime again with another id or 0) with an injected clock (instants uniform in 1970-2036 or a small step after the previous call's, in the default or a fixed-offset zone; one case in eight injects no clock and brackets the value between the instants read right before and after the call); payloader in {G711,G722,Opus,VP8+-pid,VP9 flexible/non-flexible,H264+-STAP-A,H265+-DONL,AV1, scripted stub}) and 1-10 operations Packetize(non-empty payload, samples)/Packetize(nil or empty payload: no packets, no trace)/SkipSamples/GeneratePadding(0-5, rarely 65535-65537); one op in six is 'steered': its sample count is computed at run time from the learned first timestamp so that the next timestamp is exactly 0xFFFFFFFF, 0 or 1. Oracle: spy on the payloader (fragments unchanged and in order), sequence/timestamp model (learned first values), fixed fields, marker, abs-send-time = exact 6.18 value of the injected instant, MarshalSize<=MTU, marshal/parse equality, padding packets valid padding-only RTP; every packet returned earlier still serialises to the same bytes after all later calls. Non-trivial = >=2 productive Packetize calls, one with >=2 packets, with a Skip/Padding before one of them; distinct = FNV-64 of the JSON case"
 
 func TestC06(t *testing.T) {
 	r := begin(t, "C06", "exploration", ruleC06)
